@@ -97,6 +97,41 @@ pub fn config_for_alt(fragset: usize, alt: bool) -> GeneratorConfig {
     }
 }
 
+/// A fragment generator of the kind a user of the library writes: one constant per variant that
+/// lists the names of its fields.
+pub struct UserFragment;
+
+impl FragmentGenerator for UserFragment {
+    fn imports(&self, scope: &mut codegen::Scope) {
+        scope.import("std::marker", "PhantomData");
+    }
+
+    fn generate(&self, specs: &truc::generator::fragment::FragmentGeneratorSpecs, scope: &mut codegen::Scope) {
+        let names: Vec<String> = specs.record.data.iter().map(|d| format!("{:?}", d.name())).collect();
+        scope.raw(format!(
+            "pub const VERIF_FIELD_NAMES_{}: (&[&str], bool, PhantomData<u8>) = (&[{}], {}, PhantomData);",
+            specs.record.variant.id(),
+            names.join(", "),
+            specs.prev_record.is_some()
+        ));
+    }
+}
+
+pub const EXTRA_FRAGSETS: [&str; 3] = [
+    "none (GeneratorConfig::new with an empty list)",
+    "a user-supplied fragment alone (GeneratorConfig::new)",
+    "default + a user-supplied fragment",
+];
+
+/// Selections beyond the optional shipped fragments, all reachable through the public API.
+pub fn config_extra(k: usize) -> GeneratorConfig {
+    match k {
+        0 => GeneratorConfig::new(Vec::<Box<dyn FragmentGenerator>>::new()),
+        1 => GeneratorConfig::new(vec![Box::new(UserFragment) as Box<dyn FragmentGenerator>]),
+        _ => GeneratorConfig::default_with_custom_generators(vec![Box::new(UserFragment) as Box<dyn FragmentGenerator>]),
+    }
+}
+
 /// Facts of the data of one variant list.
 fn check_variant_list(
     label: &str,
